@@ -54,7 +54,11 @@ class C19(Check):
             "rule-built orders for n = 5); format variants (CRLF, lower case, redundant upper-address "
             "records, start-address record, records of an area in reverse, per-area lengths); each "
             "file through compute_app_hash, each layout through `signapp hash`; signonetime with "
-            "1..4 images x 2 runs.  Distinct = (areas, placement, record policy, order kind, "
+            "1..4 images x 2 runs (file names with non-ASCII letters, blanks, no extension); `signapp "
+            "message -o OUT` over an output path that is absent / holds an authorization of another "
+            "image (0 or 2 signatures) / garbage / nothing, and after the histories message(A), "
+            "message(A)+key, message(A)+key+key, followed by `key` (what is embedded and what gets "
+            "signed is the hash of the image given now).  Distinct = (areas, placement, record policy, order kind, "
             "variant, verdict).")
     assumptions = [
         "area contents are seeded bytes; addresses sit around zone 0xC0D0/0xC0D1 (and 0x0000/0x0001 "
@@ -92,7 +96,10 @@ class C19(Check):
     def alphabets(self):
         return {"record_types": ["00", "01", "04", "05", "02 (dont_care)"],
                 "variants": ["crlf", "lower", "redundant-zone", "start-record", "reverse-records",
-                             "per-area-lengths", "segment", "implicit-zone0"]}
+                             "per-area-lengths", "blank-lines", "no-final-eol", "segment",
+                             "implicit-zone0"],
+                "output_path_history": ["absent", "old0", "old2", "garbage", "empty", "message-old",
+                                        "message-old+key", "message-old+key+key"]}
 
     # -- cases ---------------------------------------------------------------
     def cases(self):
@@ -116,6 +123,8 @@ class C19(Check):
             for v in range(8 if self.thorough else 4):
                 cs.append({"kind": "onetime", "n": n, "v": v})
         cs.append({"kind": "variants"})
+        for new in range(8):
+            cs.append({"kind": "embed", "new": new})
         return cs
 
     def run_case_single(self, case, choices, stats):
@@ -134,6 +143,8 @@ class C19(Check):
                 self.case_onetime(case, stats, vs)
             elif k == "variants":
                 self.case_variants(case, stats, vs)
+            elif k == "embed":
+                self.case_embed(case, stats, vs)
         return vs
 
     def viol(self, vs, clause, detail, route, args, observed, expected):
@@ -241,7 +252,8 @@ class C19(Check):
 
     def case_variants(self, case, stats, vs):
         fmts = [{"eol": "\r\n"}, {"lower": True}, {"redundant_zone": True}, {"start_record": True},
-                {"reverse_records": True}, {"eol": "\r\n", "lower": True, "redundant_zone": True}]
+                {"reverse_records": True}, {"eol": "\r\n", "lower": True, "redundant_zone": True},
+                {"blank_lines": True}, {"no_final_eol": True}]
         lays = [([300], [], pl) for pl in PLACEMENTS] + \
                [([17, 300], [g], pl) for g in ihex.GAPS for pl in PLACEMENTS] + \
                [([256, 1, 300], [0, 4096], pl) for pl in PLACEMENTS] + \
@@ -267,6 +279,116 @@ class C19(Check):
                         self.x_hash(Args(ls=ls, gs=gs, pl=pl, policy=pol, order=list(order), fmt=fmt,
                                          zone=0, via="fn"), stats, vs)
 
+    # -- route embed: the hash embedded in authorization messages / files ------------------
+    def write_pool_image(self, pi, name, policy=None, order=None):
+        ls, gs, pl, pol, od = self.pool()[pi]
+        img = self.image(ls, gs, pl)
+        self.td.write(name, ihex.write(img, policy=policy or pol, order=order or od))
+        return ihex.reference_hash(img)
+
+    def x_embed(self, a, stats, vs):
+        """args: new, old (pool indices), pre: absent|old0|old2|garbage|empty (what the output
+        path holds from an earlier step), it (iteration string), seq: steps run through main()
+        before the judged `message` call: [] | ["message-old"] | ["message-old", "key"] ...,
+        policy (record length for the NEW image file)"""
+        import json
+        td = self.td
+        td.clear()
+        want_new = self.write_pool_image(a.new, "new.hex", policy=a.policy)
+        want_old = self.write_pool_image(a.old, "old.hex")
+        out = td.file("auth.json")
+        key = ecsig.seeded_scalar(Rng("c19-embed-key"))
+        if a.pre in ("old0", "old2"):
+            from ..refs.keccak import keccak256
+            text = "RSK_powHSM_signer_%s_iteration_%d" % (want_old.hex(), 77)
+            dg = keccak256(b"\x19Ethereum Signed Message:\n" + str(len(text)).encode() + text.encode())
+            sigs = [ecsig.sign_libsecp(ecsig.seeded_scalar(Rng("c19-embed-k%d" % i)), dg).hex()
+                    for i in range(2 if a.pre == "old2" else 0)]
+            td.write("auth.json", json.dumps({"version": 1, "signer": {"hash": want_old.hex(),
+                                                                    "iteration": 77},
+                                              "signatures": sigs}, indent=2) + "\n")
+        elif a.pre == "garbage":
+            td.write("auth.json", "{ this is not an authorization\n")
+        elif a.pre == "empty":
+            td.write("auth.json", "")
+        patches = [(os, "urandom", opstub.ByteStream("c19-embed"))]
+        for step in a.seq or []:
+            stats.evaluations += 1
+            if step == "message-old":
+                argv = ["message", "-a", td.file("old.hex"), "-i", "77", "-o", out]
+            elif step == "key":
+                argv = ["key", "-o", out, "-k", key.hex()]
+            else:
+                raise AssertionError(step)
+            r0 = opstub.run_main(self.signapp.main, ["signapp.py"] + argv, patches=patches)
+            if r0.code != 0:
+                self.viol(vs, "history-step-failed", "embed:%s" % step, "embed", a,
+                          {"exit": r0.code, "out": r0.out[-300:]}, {"exit": 0})
+                return
+        stats.evaluations += 1
+        held = td.read("auth.json")
+        r = opstub.run_main(self.signapp.main, ["signapp.py", "message", "-a", td.file("new.hex"),
+                                                "-i", a.it, "-o", out], patches=patches)
+        after = td.read("auth.json")
+        try:
+            d = json.loads(after)
+        except Exception:   # noqa
+            d = None
+        n_it = int(a.it, 16) if a.it.startswith("0x") else int(a.it)
+        want = {"hash": want_new.hex(), "iteration": n_it}
+        hist = "+".join(a.seq or []) or a.pre
+        stats.observe(("embed", a.pre, tuple(a.seq or []), a.new == a.old, r.code,
+                       isinstance(d, dict) and d.get("signer") == want))
+        stats.sample({"route": "embed", "pre": a.pre, "seq": a.seq, "exit": r.code, "file": (after or "")[:200]})
+        if r.exc:
+            self.viol(vs, "tool-crash", "embed", "embed", a, {"exc": r.exc}, {"exit": "0 or 1"})
+            return
+        if r.code != 0:
+            # refusing to overwrite is not what the tool documents; the statement only binds
+            # what is embedded, so a refusal must at least leave the earlier file alone
+            if after != held:
+                self.viol(vs, "embedded-hash", "embed:refused-but-changed:%s" % hist, "embed", a,
+                          {"exit": r.code, "file": after}, {"file": held})
+            else:
+                self.viol(vs, "image-refused", "embed:message-over-existing-file:%s" % hist, "embed", a,
+                          {"exit": r.code, "out": r.out[-300:]}, {"exit": 0, "signer": want})
+            return
+        if not isinstance(d, dict) or d.get("signer") != want:
+            self.viol(vs, "embedded-hash", "embed:message-over-%s" %
+                      ("history" if a.seq else "existing-file" if a.pre != "absent" else "new-file"),
+                      "embed", a, {"exit": r.code, "file": d if d is not None else after,
+                                   "held_before": held},
+                      {"signer": want, "is": "SHA-256 of the image given with -a"})
+            return
+        # later steps sign what the file says: a key signature added now is over the NEW text
+        stats.evaluations += 1
+        r2 = opstub.run_main(self.signapp.main, ["signapp.py", "key", "-o", out, "-k", key.hex()],
+                             patches=patches)
+        try:
+            d2 = json.loads(td.read("auth.json"))
+            sig = bytes.fromhex(d2["signatures"][-1])
+        except Exception:   # noqa
+            d2, sig = None, b""
+        from ..refs.keccak import keccak256
+        text = "RSK_powHSM_signer_%s_iteration_%d" % (want_new.hex(), n_it)
+        dg = keccak256(b"\x19Ethereum Signed Message:\n" + str(len(text)).encode() + text.encode())
+        if r2.code != 0 or d2 is None or d2.get("signer") != want or \
+                not ecsig.verify_libsecp(ecsig.pub_of_libsecp(key), dg, sig):
+            self.viol(vs, "embedded-hash", "embed:key-after-message", "embed", a,
+                      {"exit": r2.code, "file": d2}, {"signer": want, "last_signature_over": text})
+
+    def case_embed(self, case, stats, vs):
+        new = case["new"]
+        npool = len(self.pool())
+        for old in sorted({(new + 1) % npool, (new + 3) % npool, new}):
+            for pre in ("absent", "old0", "old2", "garbage", "empty"):
+                for it in ("5", "0x1f4", "65535"):
+                    self.x_embed(Args(new=new, old=old, pre=pre, it=it, seq=[],
+                                      policy=[16, 1, 255][int(it, 0) % 3]), stats, vs)
+            for seq in (["message-old"], ["message-old", "key"], ["message-old", "key", "key"]):
+                for pre in ("absent", "old2"):
+                    self.x_embed(Args(new=new, old=old, pre=pre, it="78", seq=seq, policy=32), stats, vs)
+
     # -- route onetime ----------------------------------------------------------------
     def pool(self):
         P = ihex.POLICIES
@@ -285,7 +407,7 @@ class C19(Check):
         for j, pi in enumerate(a.images):
             ls, gs, pl, pol, order = pool[pi]
             img = self.image(ls, gs, pl)
-            nm = "app%d_%d.hex" % (j, pi)
+            nm = ["app%d_%d.hex", "aplicaci\u00f3n%d_%d.hex", "app %d %d.hex", "app%d_%d"][(j + pi) % 4] % (j, pi)
             td.write(nm, ihex.write(img, policy=pol, order=order))
             names.append(nm)
             wants.append(ihex.reference_hash(img))
@@ -299,7 +421,7 @@ class C19(Check):
         for run, label in enumerate(a.streams):
             stats.evaluations += 1
             stream = opstub.ByteStream(label)
-            inputs = {n: td.read(n, binary=True) for n in td.listing() if n.endswith(".hex")}
+            inputs = {n: td.read(n, binary=True) for n in td.listing() if n in names}
             r = opstub.run_main(self.signonetime.main,
                                 ["signonetime.py", "-a", app_arg, "-p", pkpath + (" " if a.pad else "")],
                                 patches=[(os, "urandom", stream)])
